@@ -696,6 +696,17 @@ class Program:
             raise AnchorMissing(name)
         return f
 
+    def need_role(self, name, role, what):
+        """anchor lookup that survives a pure rename: the function called `name`, or — if no such function exists —
+        the unique workspace function satisfying `role(fn)`; fails closed (AnchorMissing) otherwise"""
+        f = self.fns.get(name)
+        if f is not None:
+            return f
+        cands = [g for lst in self.fn_multi.values() for g in lst if g.kind != "closure" and not g.crate.endswith("[bin]") and role(g)]
+        if len(cands) == 1:
+            return cands[0]
+        raise AnchorMissing(f"{name} (and {len(cands)} functions match its role: {what})")
+
     def find(self, suffix, crate=None):
         """functions whose name equals or ends with ::suffix"""
         out = []
